@@ -276,7 +276,16 @@ def run(ck, facts, tier):
     if ns:
         th = facts.thir(MI + "::aggregate_name_and_substs")
         ne = any((x.get("k") == "bin" and x["op"] == "Ne") or (x.get("k") == "call" and callee_matches(x, "PartialEq::ne")) for x in walk(th))
-        if ne and has_call(th, "Iterator::any") and has_call(th, "Iterator::zip") and not has_call(th, "Iterator::all"):
+        from kit import for_loops as _fl
+        # `zip(..).any(|..| aggregate_generic_args(..))`, or the same as a loop: every pair examined, the only way out of the loop is
+        # `return true`
+        loop_form = False
+        for l_, it_, pat_, lbody_ in _fl(th):
+            if has_call(it_, "Iterator::zip") and has_call(lbody_, "aggregate_generic_args"):
+                rets_ = [x for x in walk(lbody_) if x.get("k") == "return"]
+                jumps_ = [x for x in walk(lbody_) if x.get("k") in ("break", "continue")]
+                loop_form = not jumps_ and all(is_lit_bool(x.get("e"), True) for x in rets_) and bool(rets_)
+        if ne and (has_call(th, "Iterator::any") or loop_form) and has_call(th, "Iterator::zip") and not has_call(th, "Iterator::all"):
             ck.ok(R, "aggregate_name_and_substs", "name differs || any(component may invalidate)")
         else:
             ck.violation(R, "aggregate_name_and_substs", ns.where(), "must be `names differ || zip(..).any(aggregate_generic_args)`")
